@@ -61,7 +61,7 @@ PROPS = {
    'assumptions': ['grants and voting powers are non-negative (unsigned on the wire); InitialBlockReward >= 0 (Params.Validate)'],
  },
  'C13': {'runs': locking('C13', blocks=16), 'monitor_props': ['C13'], 'rule': LOCKING_RULE + '; max-validators 1..5; the REAL cometbft ValidatorSet.UpdateWithChangeSet is the acceptance oracle',
-         'partial': 'C13_complete has no hypothesis beyond the block structure of histories (BeginBlocker, request lists at the same block time, EndBlocker) and the parameter ranges; what stays outside the theorems: top-K optimality of the walk (monitor) and the environment assumptions below',
+         'partial': 'C13_complete has no hypothesis beyond the block structure of histories (BeginBlocker, request lists at the same block time, EndBlocker) and the parameter ranges; top-K is a theorem too (C13_top_k, C13_ranking_sorted); what stays outside the theorems are the environment assumptions below',
          'assumptions': ['total voting power stays below MaxInt64/8 and validator power does not wrap uint64 (known finding C13 power-overflow)', 'at least one validator stays in the set (CometBFT refuses to empty the set; environment assumption)']},
  'C14': {
    'runs': locking('C14', blocks=18),
